@@ -91,6 +91,45 @@ def mk_not(t: Term) -> Term:
     return ("not", t)
 
 
+def norm_cond(c: Term) -> Term:
+    """Negation normal form with flattened, order-preserving `and` / `or` (De Morgan, double negation)."""
+    if c[0] == "not":
+        x = c[1]
+        if x[0] == "or":
+            return norm_cond(("and", tuple(("not", y) for y in x[1])))
+        if x[0] == "and":
+            return norm_cond(("or", tuple(("not", y) for y in x[1])))
+        if x[0] == "not":
+            return norm_cond(x[1])
+        return mk_not(norm_cond(x)) if x[0] == "cmp" else ("not", norm_cond(x))
+    if c[0] in ("and", "or"):
+        out = []
+        for y in c[1]:
+            y = norm_cond(y)
+            if y[0] == c[0]:
+                out.extend(y[1])
+            else:
+                out.append(y)
+        return (c[0], tuple(out))
+    return c
+
+
+def norm_sels(t: Term) -> Term:
+    """Canonical conditional values: conditions in negation normal form, and `a ? (b ? x : y) : y` written as
+    `(a and b) ? x : y` (nested ifs and `and` are the same program)."""
+    if not isinstance(t, tuple) or not t or not isinstance(t[0], str) or t[0] not in TAGS:
+        return t
+    if t[0] == "sel":
+        c, a, b = norm_cond(norm_sels(t[1])), norm_sels(t[2]), norm_sels(t[3])
+        if a[0] == "sel" and a[3] == b:
+            c = norm_cond(("and", (c, a[1])))
+            a = a[2]
+        return ("sel", c, a, b)
+    return tuple(norm_sels(x) if isinstance(x, tuple) and x and isinstance(x[0], str) and x[0] in TAGS
+                 else (tuple(norm_sels(y) if isinstance(y, tuple) else y for y in x) if isinstance(x, tuple) else x)
+                 for x in t)
+
+
 def mk_ext(kind: str, args: List[Term]) -> Term:
     """Commutative, associative max/min with sorted, flattened operands."""
     flat = []
@@ -749,6 +788,23 @@ class Walker:
                 return self.statement(inner, env)
             self.ev(s.value, env)
             return None
+        if isinstance(s, ast.Assign) and len(s.targets) == 1 and isinstance(s.targets[0], ast.Name) \
+                and isinstance(s.value, ast.BinOp) and type(s.value.op) in OPS:
+            # `x = x op e` (and `x = e op x` for + and *) is the local-variable form of `x op= e`
+            nm, v = s.targets[0].id, s.value
+            other = None
+            if isinstance(v.left, ast.Name) and v.left.id == nm:
+                other = v.right
+            elif isinstance(v.op, (ast.Add, ast.Mult)) and isinstance(v.right, ast.Name) and v.right.id == nm:
+                other = v.left
+            if other is not None and nm in env and not any(isinstance(x, ast.Name) and x.id == nm for x in ast.walk(other)):
+                aug = ast.copy_location(ast.AugAssign(target=ast.Name(id=nm, ctx=ast.Store()), op=v.op, value=other), s)
+                aug._from_assign = True  # a rebinding, not an in-place update (the effects analysis must not see a write)
+                prev = self.stmt
+                self.stmt = aug
+                r = self.statement(aug, env)
+                self.stmt = prev
+                return r
         if isinstance(s, ast.Assign):
             if isinstance(s.value, ast.IfExp) and len(s.targets) == 1 and isinstance(s.targets[0], (ast.Attribute, ast.Subscript)):
                 # `obj.f = a if c else b`  is  `if c: obj.f = a` / `else: obj.f = b`
@@ -1102,7 +1158,15 @@ class Walker:
         """The value a variable carries into the next iteration: on a path that ended with `continue`
         it is the value held there, otherwise the value at the end of the body."""
         _, recs = self.cont_stack.pop()
-        for guards, cenv in reversed(recs):
+        # a later `continue` is only reached when the earlier ones were not taken: the negations of their triggers,
+        # which the statements in between carry as guards, are implied by the nesting built below and are dropped
+        triggers = set()
+        pruned = []
+        for guards, cenv in recs:
+            pruned.append(([gp for gp in guards if (gp[0], not gp[1]) not in triggers], cenv))
+            if guards:
+                triggers.add(guards[-1])
+        for guards, cenv in reversed(pruned):
             conds = [g if pol else mk_not(g) for g, pol in guards]
             if not conds:
                 continue
@@ -1377,6 +1441,12 @@ class Walker:
         r = self.call_closure(fn, args, kwargs, e, env)
         if r is not None:
             return r
+        # range(0, n[, 1]) is range(n); range(a, b, 1) is range(a, b)
+        if fn == ("builtin", "range") and not kwargs and len(args) in (2, 3):
+            if len(args) == 3 and args[2] == ("const", 1):
+                args = args[:2]
+            if len(args) == 2 and args[0] == ("const", 0):
+                args = args[1:]
         # reversed(range(n)) is range(n - 1, -1, -1); reversed(range(a, b)) is range(b - 1, a - 1, -1)
         if fn == ("builtin", "reversed") and len(args) == 1 and not kwargs and args[0][0] == "call" \
                 and args[0][1] == ("builtin", "range") and not args[0][3] and len(args[0][2]) in (1, 2):
